@@ -124,6 +124,23 @@ CONFIG = {
             "cluster, consensus and connector are recording RPC fakes behind the proxy; with a nil host every member's RepoStat is answered locally",
         ],
     },
+    "C13": {
+        "pkg": "c13",
+        "regress": "^TestRegress",
+        "legs": [
+            {"run": "^TestAdd$", "quick": (120, 16), "thorough": (5000, 16)},
+            {"run": "^TestAddThroughREST$", "quick": (300, 2), "thorough": (8000, 4)},
+        ],
+        "floors": {"add": {"nontrivial": 600, "multi-shard": 100, "failed": 100, "fault-survived": 50}, "add-through-rest": {"has-hidden-entry": 100}},
+        "assumptions": [
+            QUIC,
+            "several top-level entries imply wrap (ipfs-cluster-ctl forces it)",
+            "reference importer = go-unixfs chunker + balanced/trickle layout + io.Directory built by the harness (no MFS, no cluster code)",
+            "the importer also emits nodes that are not part of the final DAG (intermediate directory states): they may be delivered and covered by shards; only blocks reachable from the root must be covered exactly once",
+            "a shard size not larger than the largest block is a legal refusal ('block doesn't fit in empty shard')",
+            "the class with more than 5984 links in one shard runs at low frequency in the quick tier",
+        ],
+    },
     "C14": {
         "pkg": "c14",
         "regress": "^TestRegress",
